@@ -284,7 +284,7 @@ func (u *Unit) oblige(s *State, name string, props []string, kind, goal string, 
 	if goal == "true" {
 		return
 	}
-	o := &Oblig{Name: name, Props: props, Kind: kind, PC: append([]string{}, s.pc...), Goal: goal, Unit: u}
+	o := &Oblig{Name: name, Props: props, Kind: kind, PC: append([]string{}, s.pc...), Goal: goal, Unit: u, PathDeps: append([]string{}, s.checked...)}
 	if pos.IsValid() {
 		o.Pos = u.p.prog.Fset.Position(pos)
 	}
@@ -339,6 +339,9 @@ func (u *Unit) oblige(s *State, name string, props []string, kind, goal string, 
 	// the obligations of other properties, whose checks do not see this failure
 	if goal != "false" {
 		s.assume(goal)
+		if len(s.checked) == 0 || s.checked[len(s.checked)-1] != name {
+			s.checked = append(s.checked, name)
+		}
 	}
 }
 
